@@ -310,6 +310,8 @@ class C04:
                     out.append(("corr", "sl-" + name, {"op": op, "height": h, "impl": old + " " + dump, "code": b_old + " " + b_dump}))
                 why = dump_invariant(*post)
                 l0 = ",".join("%s:%s" % e for e in post[0][0]) or "."
+                if name == "ins" and is_nan_bits(op[2]):
+                    tainted = True       # NaN handed to SkipList::insert directly: compared with the model only (refusal is the handlers' duty, layer tcp)
                 if why and not tainted:
                     nan = "NaN" in why
                     out.append(("oracle", "nan-stored" if nan else "inv", {"op": op, "impl": dump, "why": why, "nan": nan, "layer": "sl"}))
@@ -771,11 +773,12 @@ CORPUS = {
         (None, [("zincrby", hexm("n"), PINF), ("zincrby", hexm("n"), NINF), ("zrem", hexm("n")), ("exists",), ("pop", "min"), ("pop", "min")]),
     ],
     "sl": [
-        ("nan-stored", [("ins", hexm("n"), NAN), ("ins", hexm("n"), ONE), ("rem", hexm("n")), ("ins", hexm("n"), NAN), ("ins", hexm("b"), TWO),
+        (None, [("ins", hexm("n"), NAN), ("ins", hexm("n"), ONE), ("rem", hexm("n")), ("ins", hexm("n"), NAN), ("ins", hexm("b"), TWO),
                         ("ins", hexm("c"), NAN), ("rank", hexm("n")), ("rank", hexm("b")), ("byscore", NINF, PINF), ("byrank", 0, 10), ("rem", hexm("c")), ("len",)]),
     ],
     "tcp": [
         ("nan-stored", [("ZADD", [(hexm("nan"), hexm("n"))])]),
+        ("nan-stored", [("ZADD", [(hexm("nan"), hexm("n"))]), ("ZADD", [(hexm("1"), hexm("n"))]), ("ZPOP", "min", 3), ("ZPOP", "max", 2), ("ZPOP", "min", None)]),
         ("zadd-partial", [("ZADD", [(hexm("1"), hexm("a")), (hexm("nope"), hexm("b"))])]),
         ("zincrby-nan", [("ZINCRBY", hexm("inf"), hexm("n")), ("ZINCRBY", hexm("-inf"), hexm("n"))]),
         ("zrange-clamp", [("ZADD", [(hexm("1"), hexm("a")), (hexm("2"), hexm("b")), (hexm("3"), hexm("c"))]), ("ZRANGE", 0, -100, 0)]),
@@ -796,7 +799,7 @@ def run_layer(c, server, layer, ops, tag, record=True):
 def explore(c, server, seed, tier):
     rep = c.rep
     r = Rng(seed)
-    scale = 10 if tier == "thorough" else 1
+    scale = 30 if tier == "thorough" else 1
     # 1. corpus: witnesses of the findings and of the Lean witness lemmas
     for layer in ("sl", "zs", "tcp"):
         for want, ops in CORPUS[layer]:
